@@ -265,6 +265,10 @@ def payload_chunked(u: U):
         with_ext = has_ext and u.branch(i_loc >= 0, "has_ext")
         if isinstance(ext, SBytes) and with_ext:
             u.check("C01.chunk.ext.no_lf", Not(ext.sym_contains(b"\n")), "an accepted chunk extension contains no bare LF")
+            u.check("C01.chunk.ext.no_bare_cr", Not(ext.sym_contains(b"\r")),
+                    "an accepted chunk extension contains no bare CR either (RFC 9112 7.1.1: chunk-ext is tokens and quoted "
+                    "strings; a CR that is not part of the line's CRLF is a control byte another parser may take for a "
+                    "line end)", known=[("F1c", True)], witness={"chunk_size_line": "5;a\\rb"})
         # `pos` is re-used by the trailer section when the size was 0 (same iteration): the positional facts are
         # observable at the back edge only for a non-zero size
         if "size" in L and u.branch(L["size"] != 0, "nonzero_size"):
